@@ -500,7 +500,7 @@ void register_c07(std::vector<Profile>& v)
   p.stub_components = {"clock (virtual)", "alarm() (recorded, never armed: the 20 s watchdog is real time)", "scheduling (simulator); after exit() began the "
                        "other user threads finish their current call and park"};
   p.assumptions = {"plain flavour only (ASan installs its own SIGSEGV handling)", "return from main is exit(n) by the C++ standard and is exercised as exit(n)"};
-  p.quick_runs = 2500;
+  p.quick_runs = 20000;
   p.thorough_runs = 300000;
   v.push_back(p);
 }
